@@ -598,6 +598,23 @@ func c11Ohdr(v jm) (enc func() ([]byte, error), dec func([]byte) (jm, error)) {
 	return
 }
 
+// c11DirtyPool takes buffers of the usual sizes from the library's pool, fills them and gives them back.
+func c11DirtyPool(pattern byte) {
+	for _, n := range []int{8, 16, 24, 32, 48, 64, 96, 128, 256, 512, 1024, 4096} {
+		var held [][]byte
+		for k := 0; k < 3; k++ {
+			b := verifapi.GetBuffer(n)
+			for i := range b {
+				b[i] = pattern
+			}
+			held = append(held, b)
+		}
+		for _, b := range held {
+			verifapi.ReleaseBuffer(b)
+		}
+	}
+}
+
 func c11One(c *c11Case) []lib.Ev {
 	ev := lib.Ev{"op": "codec", "kind": c.Kind, "v": c.V, "must": c.Must, "refuse": c.Refuse, "det": true, "dec": "skip", "d": jm{}}
 	enc, dec := c11Codec(c.Kind, c.V)
@@ -606,6 +623,9 @@ func c11One(c *c11Case) []lib.Ev {
 		return []lib.Ev{{"op": "reset"}, ev}
 	}
 	var b1, b2 []byte
+	// an encoder must not depend on what earlier work left in the library's buffer pool: the pool is filled with one
+	// pattern before the first encoding and with another before the second
+	c11DirtyPool(0xA5)
 	res, msg := lib.Call(func() error { var err error; b1, err = enc(); return err })
 	ev["enc"] = res
 	if res != "ok" {
@@ -613,6 +633,7 @@ func c11One(c *c11Case) []lib.Ev {
 		return []lib.Ev{{"op": "reset"}, ev}
 	}
 	ev["nbytes"] = len(b1)
+	c11DirtyPool(0x3C)
 	res2, _ := lib.Call(func() error { var err error; b2, err = enc(); return err })
 	ev["det"] = res2 == "ok" && bytes.Equal(b1, b2)
 	var d jm
